@@ -1,4 +1,4 @@
-import TshVerif.Model.EmitBash
+import TshVerif.Model.ConvBash
 namespace Tsh.C02
 open Tsh Tsh.Bash
 
